@@ -1729,7 +1729,7 @@ T_ALPHA = [48, 49, 55, 97, 90, 95, 32, 13, 10, 233, 45, 44]      # 0 1 7 a Z _ s
 T_UNI = [0x0B, 0x0C, 0x09, 0x85, 0xA0, 0x1680, 0x2028, 0x2029, 0x3000, 0x3B1, 0x4E2D, 0x301, 0xB7, 0x660, 0xAA, 0xB5, 0xC3, 0xA9, 0xD7, 0x1D11E, 0x0E01]
 XID_START = {0xAA, 0xB5, 0xBA, 0xC3, 0xE9, 0x3B1, 0x4E2D, 0x0E01}
 XID_CONT_ONLY = {0xB7, 0x301, 0x660}
-UNI_WS = set(range(9, 14)) | {32, 0x85, 0xA0, 0x1680, 0x2028, 0x2029, 0x202F, 0x205F, 0x3000} | set(range(0x2000, 0x200B))
+UNI_WS = set(range(9, 14)) | {32, 0x85, 0xA0, 0x1680, 0x2028, 0x2029, 0x202F, 0x205F, 0x3000} | set(range(0x2000, 0x200B)) | {0x110000}
 
 
 def t_digit(r, c):
@@ -1803,7 +1803,7 @@ def text_oracle(inst, pname, params, toks):
     if pname == 'newline':
         if toks[:2] == [13, 10]:
             return (0, 2, 2)
-        if toks and toks[0] in (10, 13, 11, 12, 0x85, 0x2028, 0x2029):
+        if toks and toks[0] in (10, 13, 11, 12, 0x85, 0x2028, 0x2029, 0x110000):
             return (0, 1, 1)
         return None
     if pname in ('pad_int', 'pad_aident'):
@@ -1813,6 +1813,19 @@ def text_oracle(inst, pname, params, toks):
             return None
         return (s0, e, t_run(ws, toks, e))
     return None
+
+
+CRLF = 0x110000      # pseudo-token: the grapheme cluster "\r\n" (white space, a newline, nothing else)
+REGEX_PATTERNS = ["[0-9]+", "[a-zA-Z_][a-zA-Z0-9_]*", "a|ab", "(ab)*", "a*", "ab|a", "[^ ]+", ".", "é+", "a?b"]
+
+
+def regex_oracle(pi, toks):
+    import re
+    s = ''.join(chr(c) for c in toks)
+    m = re.compile(REGEX_PATTERNS[pi % len(REGEX_PATTERNS)]).match(s)
+    if m is None:
+        return None
+    return (0, m.end(), m.end())
 
 
 def _text_worker(args):
@@ -1863,6 +1876,16 @@ class C14(Prop):
                     continue          # `text::newline` does not compile for &[u8] (bound `&str: OrderedSeq<u8>`)
                 extra = ' '.join(rnd) if inst == 'char' else ' '.join(rnd_u8)
                 lines.append(f'T x{n}{inst[0]} {inst} {pname} {ps} I {inp} {singles} {extra}'.replace('  ', ' '))
+            # the same parsers over a `&Graphemes` input (`impl Char for &Grapheme`): tokens are grapheme clusters, CR LF is one
+            if pname in ('int', 'digits', 'pad_int', 'uident', 'ws', 'iws', 'newline') and (not params or params[0] in (10, 16)):
+                lines.append(f'T y{n}g gr {pname} {ps} I {inp} {singles} {" ".join(rnd)}'.replace('  ', ' '))
+            n += 1
+        # regex(p): what an anchored leftmost-first search matches at the position (oracle: Python's `re` on the same pattern
+        # table; no model — the engine is external); &[u8] against &str on ASCII text
+        ralpha = [97, 98, 48, 55, 32, 95, 233, 10]
+        for pi in range(len(REGEX_PATTERNS)):
+            for inst in ('char', 'u8'):
+                lines.append(f'T z{n}{inst[0]} {inst} regex 1 {pi} I {inputs_all(maxlen, ralpha)}')
             n += 1
         return lines
 
@@ -1895,14 +1918,36 @@ class C14(Prop):
                 oc = a.split(' ')[0]
                 tot['outcomes'][oc] = tot['outcomes'].get(oc, 0) + 1
                 # C18 inside the text parsers: the whole input was consumed, so the inspector must have been fed every token
+                a, _, ncl = a.partition(' g')
                 a, _, fed = a.partition(' i')
-                if fed and int(fed) != len(toks):
+                if inst == 'gr':
+                    # clusters the check can segment itself: every code point its own cluster, except CR LF (one cluster)
+                    cl = []
+                    for c in toks:
+                        if c == 10 and cl and cl[-1] == 13:
+                            cl[-1] = CRLF
+                        else:
+                            cl.append(c)
+                    if int(ncl or -1) != len(cl):
+                        tot['outcomes']['gr:other-segmentation'] = tot['outcomes'].get('gr:other-segmentation', 0) + 1
+                        continue
+                    toks = cl
+                if fed and int(fed) != len(toks) and pname != 'regex':
                     tot['pred_fail'] += 1
                     self.fail(tot, fails, 'pred', None, 0, f'INSPECTOR text::{pname}{params} [{inst}] on {toks}: the parse consumed {len(toks)} tokens but the inspector was fed {fed}')
                     continue
                 if getattr(self, 'insp_only', False):
                     continue
-                want = text_oracle(inst, pname, params, toks)
+                if pname == 'regex':
+                    if inst == 'u8':
+                        obs[(cid[:-1], inst, k)] = (a, toks, pname, params)
+                        continue          # &[u8]: compared with &str below (ASCII inputs)
+                    want = regex_oracle(params[0], toks)
+                    b = a                 # no model of the engine
+                else:
+                    want = text_oracle('char' if inst == 'gr' else inst, pname, params, toks)
+                    if inst == 'gr':
+                        b = a             # the grapheme instance has no model of its own: oracle only
                 want_s = 'none' if want is None else 'ok %d %d %d' % want
                 obs[(cid[:-1], inst, k)] = (a, toks, pname, params)
                 if a != want_s:
